@@ -13,7 +13,7 @@ RULE = ("Generated histories (lists of 4..16 steps in quick, ..40 in thorough; e
         "a context (drawn flags), enter a context that is not active, exit the innermost context normally or with an "
         "exception passed to __exit__, create a tiny symbolic circuit (embedding / categorical / polynomial inputs, 2 "
         "variables), compile it through ctx.compile or cirkit.pipeline.compile (explicit ctx= or the active context), "
-        "compile it again, apply integrate / multiply / differentiate / conjugate / concatenate to compiled circuits "
+        "compile it again, build derived SYMBOLIC circuits from compiled and uncompiled ones and compile them later, apply integrate / multiply / differentiate / conjugate / concatenate to compiled circuits "
         "through the module-level functions or the context methods, pass a circuit compiled in another context, query "
         "every lookup method. A model (stack of active contexts + per-context identity map symbolic <-> compiled) is "
         "updated alongside. Invariants after EVERY step: the active pipeline context and operator registry are the "
@@ -52,7 +52,14 @@ S_OPERATOR = st.tuples(st.just("operator"), st.sampled_from(["integrate", "integ
                        st.integers(0, 7), st.integers(0, 15), st.integers(0, 15), _OHOW)
 S_FOREIGN = st.tuples(st.just("foreign"), st.integers(0, 7), st.integers(0, 15),
                       st.sampled_from(["integrate", "multiply", "conjugate", "concatenate", "differentiate"]))
-STEP = st.one_of(S_NEW_CTX, S_ENTER, S_ENTER, S_ENTER, S_EXIT, S_EXIT, S_EXIT_EXC, S_NEW_CIRCUIT, S_COMPILE, S_COMPILE,
+# a derived SYMBOLIC circuit built from circuits of the pool (compiled or not) without compiling it: a later
+# compile step then has to compile its not-yet-compiled operands first and keep the already compiled ones
+S_SYMOP = st.tuples(st.just("symop"), st.sampled_from(["multiply", "multiply", "integrate", "conjugate", "concatenate"]),
+                    st.integers(0, 15), st.integers(0, 15))
+# compile, in one step, a derived circuit one of whose operands is already compiled and the other is not
+S_PARTLY = st.tuples(st.just("partly"), st.sampled_from(["multiply", "concatenate"]), st.integers(0, 7), st.integers(0, 15),
+                     st.booleans(), _HOW)
+STEP = st.one_of(S_PARTLY, S_PARTLY, S_SYMOP, S_SYMOP, S_NEW_CTX, S_ENTER, S_ENTER, S_ENTER, S_EXIT, S_EXIT, S_EXIT_EXC, S_NEW_CIRCUIT, S_COMPILE, S_COMPILE,
                  S_COMPILE, S_COMPILE, S_OPERATOR, S_OPERATOR, S_OPERATOR, S_OPERATOR, S_FOREIGN)
 
 
@@ -63,7 +70,8 @@ def strategy(tier):
     def _s(draw):
         # a short prologue makes the pools non-empty; everything after it is free
         pro = [draw(S_NEW_CTX) for _ in range(draw(st.integers(1, 3)))]
-        pro += [draw(S_NEW_CIRCUIT) for _ in range(draw(st.integers(1, 3)))]
+        first = draw(S_NEW_CIRCUIT)
+        pro += [first] + [draw(st.one_of(st.just(first), S_NEW_CIRCUIT)) for _ in range(draw(st.integers(1, 3)))]
         pro += [draw(S_COMPILE) for _ in range(draw(st.integers(0, 2)))]
         body = draw(st.lists(STEP, min_size=4, max_size=n))
         return {"steps": [list(x) for x in pro + body]}
@@ -77,6 +85,7 @@ class Model:
         self.maps = []      # per ctx: {id(sym): (sym, cc)}
         self.stack = []     # indices of active contexts (innermost last)
         self.circuits = []  # symbolic circuits known to the harness (base and derived)
+        self.kinds = {}     # id(base circuit) -> name of its spec (products need operands of one kind)
 
 
 def run_case(case):
@@ -183,20 +192,87 @@ def run_case(case):
             elif kind == "new_circuit":
                 if len(M.circuits) < 8:
                     M.circuits.append(build(SPECS[step[1]]))
+                    M.kinds[id(M.circuits[-1])] = step[1]
+            elif kind == "partly":
+                _, op, ci, a, new_first, how = step
+                k = pick_ctx(ci, how)
+                if k is not None:
+                    import cirkit.symbolic.functional as SF
+
+                    compiled_bases = [sym for sym, _ in M.maps[k].values() if id(sym) in M.kinds]
+                    if compiled_bases and len(M.circuits) < 14:
+                        sa = compiled_bases[a % len(compiled_bases)]
+                        fresh = build(SPECS[M.kinds[id(sa)]])  # same structure, never compiled anywhere
+                        M.kinds[id(fresh)] = M.kinds[id(sa)]
+                        pair = (fresh, sa) if new_first else (sa, fresh)
+                        try:
+                            new = SF.multiply(*pair) if op == "multiply" else SF.concatenate(list(pair))
+                        except Exception:  # pylint: disable=broad-except
+                            new = None
+                        if new is not None:
+                            M.circuits += [fresh, new]
+                            ctx = M.ctxs[k]
+                            try:
+                                cc = ctx.compile(new) if how == "ctx" else (PL.compile(new, ctx=ctx) if how == "module-explicit"
+                                                                            else PL.compile(new))
+                            except Exception as e:  # pylint: disable=broad-except
+                                from vlib.runner import _cirkit_frame
+
+                                raise Violation("compile-must-not-raise",
+                                                f"compile-partly[{op}]:{type(e).__name__}@{_cirkit_frame(e)}",
+                                                f"{type(e).__name__}: {str(e)[:200]}") from e
+                            M.maps[k][id(new)] = (new, cc)
+                            absorb_operands(k, new, f"compile-partly[{op}]")
+                            feats.add("compile-derived-with-partly-compiled-operands")
+            elif kind == "symop":
+                _, op, a, b = step
+                if M.circuits and len(M.circuits) < 14:
+                    import cirkit.symbolic.functional as SF
+
+                    sa, sb = M.circuits[a % len(M.circuits)], M.circuits[b % len(M.circuits)]
+                    if op == "multiply":  # operands of one kind (same structure), preferably two different objects
+                        bases = [c for c in M.circuits if id(c) in M.kinds]
+                        if bases:
+                            sa = bases[a % len(bases)]
+                            same = [c for c in bases if M.kinds[id(c)] == M.kinds[id(sa)]]
+                            sb = same[b % len(same)]
+                    try:
+                        if op == "multiply":
+                            new = SF.multiply(sa, sb)
+                        elif op == "integrate":
+                            new = SF.integrate(sa)
+                        elif op == "conjugate":
+                            new = SF.conjugate(sa)
+                        else:
+                            new = SF.concatenate([sa, sb])
+                    except Exception:  # pylint: disable=broad-except
+                        new = None  # refusals of the symbolic operators are not C18's business
+                    if new is not None:
+                        M.circuits.append(new)
+                        feats.add("symbolic-derived")
             elif kind == "compile":
                 _, ci, sj, how = step
                 k = pick_ctx(ci, how)
                 if k is not None and M.circuits:
                     sym = M.circuits[sj % len(M.circuits)]
                     ctx = M.ctxs[k]
-                    with sut("compile"):
+                    try:
                         if how == "ctx":
                             cc = ctx.compile(sym)
                         elif how == "module-explicit":
                             cc = PL.compile(sym, ctx=ctx)
                         else:
                             cc = PL.compile(sym)
+                    except Exception as e:  # pylint: disable=broad-except
+                        from vlib.runner import _cirkit_frame
+
+                        raise Violation("compile-must-not-raise", f"compile[{how}]:{type(e).__name__}@{_cirkit_frame(e)}",
+                                        f"{type(e).__name__}: {str(e)[:200]} (derived={sym.operation is not None})") from e
                     known = M.maps[k].get(id(sym))
+                    if sym.operation is not None and known is None:
+                        ops_ = list(sym.operation.operands)
+                        if any(id(o) in M.maps[k] for o in ops_) and any(id(o) not in M.maps[k] for o in ops_):
+                            feats.add("compile-derived-with-partly-compiled-operands")
                     if known is not None:
                         feats.add("repeated-compile")
                         if known[1] is not cc:
@@ -300,4 +376,5 @@ def run_case(case):
             OPERATOR_REGISTRY.set(default_reg)
             raise Violation("active-context", "unwind:defaults-not-restored", "")
     classes = sorted(feats) + [f"contexts:{len(M.ctxs)}", f"circuits:{min(len(M.circuits), 8)}"]
-    return {"nontrivial": bool(feats & {"nested", "exceptional-exit", "repeated-compile", "operator"}), "classes": classes}
+    return {"nontrivial": bool(feats & {"nested", "exceptional-exit", "repeated-compile", "operator",
+                                         "compile-derived-with-partly-compiled-operands"}), "classes": classes}
